@@ -238,6 +238,44 @@ func c14Workload(cs *c14Case, res *c14Result) {
 			time.Sleep(time.Duration(r.Intn(600)) * time.Microsecond)
 		}
 	}
+	if cs.MergerNth > 0 {
+		// the placement is "the n-th segment the merger writes": if the history was over before the merger
+		// got that far, further one-document batches are applied until the fault has fired (at most 120)
+		for extra := 0; extra < 120; extra++ {
+			mu.Lock()
+			f := firedOnce
+			mu.Unlock()
+			if f {
+				break
+			}
+			n := len(res.Batches) + 1
+			id := fmt.Sprintf("fill%d", extra%7)
+			xb := &model.Batch{Ops: []model.Op{{Kind: "update", ID: id, Doc: &model.Doc{ID: id, V: fmt.Sprintf("fill-v%d", extra), Text: map[string]string{"t": "fill"}}}}}
+			res.Batches = append(res.Batches, xb)
+			rb := xb.ToBluge()
+			if cs.Unsafe {
+				rb.SetPersistedCallback(func(err error) {
+					if err == nil {
+						rdir.Mark("ack", n)
+						cbMu.Lock()
+						cbNil[n]++
+						cbMu.Unlock()
+					}
+				})
+			}
+			rdir.Mark("call", n)
+			err := w.Batch(rb)
+			atomic.AddInt64(&applied, 1)
+			if err != nil {
+				res.BatchErrs[n] = err.Error()
+				rdir.Mark("batch-error", n)
+			} else if !cs.Unsafe {
+				rdir.Mark("ack", n)
+			}
+			cur = cur.Apply(xb)
+		}
+		nHistory = len(res.Batches)
+	}
 	// the fault is over: the next acknowledgement covers everything applied before
 	mu.Lock()
 	active = false
